@@ -2,11 +2,15 @@ package main
 
 // End-to-end differential suites (C01–C06): one op line = config + ingest history + queries.
 //   e2e <cfg…> H <history…> Q <query…>
-//   cfg    : card=<n>
+//   cfg    : card=<n>  pqs=<0|1> (persistent-query results; default on, as in the engine's default configuration)
 //   history: ev/<vid>/<ts>/<k~tv,…|->  send  fl  ro          tv ::= i<int> | d<dec> | s<hex> | b0 | b1 | z
+//            rq/<filterRPN>   the query is run at this point of the history over the whole time range, the answer is
+//                             discarded: it registers the query as persistent, so that segments created afterwards get
+//                             their persistent-query results computed while they are ingested
 //   query  : q/<from>/<size>/<start>/<end>/<filterRPN>[/<stage>]
+//            w                wait until the background write of persistent-query results has finished (no answer)
 //            filterRPN ::= item{,item}; item ::= all | c:<field>:<op>:<lit> | and | or | not ; lit ::= i… | d… | s<hex> | w<hex>
-//            stage ::= recs | stats:<agg+agg>:<by+by|->
+//            stage ::= recs | stats:<agg+agg>:<by+by|-> | tc:<spanMs>:<agg+agg>:<by|->     agg ::= count | sum.f | min.f | max.f | avg.f | dc.f
 // Exec runs the history and the queries in a fresh worker process (one dataset per process) through
 // the public entry points and prints one canonical segment per query; the Lean Oracle prints the
 // SPECIFICATION's answer for the same line; lib/runner.py compares them (mode e2e).
@@ -20,6 +24,7 @@ import (
 	"math/rand"
 	"os"
 	"os/exec"
+	"regexp"
 	"sort"
 	"strconv"
 	"strings"
@@ -29,12 +34,26 @@ import (
 func init() {
 	for _, p := range []string{"c01", "c02", "c03", "c04", "c05"} {
 		p := p
-		register(&Suite{Name: "e2e_" + p, Parallel: 6,
-			Gen:  func(r *rand.Rand, n int, tier string) []string { return genE2E(r, n, tier, p) },
-			Exec: execE2E,
-			Rule: "datasets of 1..40 events over typed columns (int, dyadic decimal, mixed, text, numeric text, sparse, bool, late) × random batch/flush/rotate histories × queries of profile " + p + "; each case runs in its own engine process; non-trivial = ≥3 events and ≥1 query"})
+		gen := func(r *rand.Rand, n int, tier string) []string { return genE2E(r, n, tier, p) }
+		rule := "datasets of 1..40 events over typed columns (int, dyadic decimal, mixed, text, numeric text, sparse, bool, late) × random batch/flush/rotate histories × queries of profile " + p + "; each case runs in its own engine process; non-trivial = ≥3 events and ≥1 query"
+		if p == "c01" || p == "c03" || p == "c04" {
+			gen = func(r *rand.Rand, n int, tier string) []string { return genE2EV2(r, n, tier, p) }
+			rule += "; event times uniform / clustered with outlier blocks (block time ranges not monotonic) / on a grid; query windows whole, cutting, or snapped onto event timestamps (±1)"
+			switch p {
+			case "c01":
+				rule += "; a column whose blocks hold numbers only, numeric-looking strings only (007, +5, 1e3, 5., .5, 1E2 …), both, or text"
+			case "c03":
+				rule += "; persistent-query results on/off per layout, the same filter run again over other windows (narrow around the cluster, then wide) with waits for the background persistent-query write, queries inside the history"
+			case "c04":
+				rule += "; stats and first-stage timechart (span, count/sum/min/max/avg/dc, by-field) with events exactly on the query bounds and on cell edges; distinct counts and group keys over integers beyond 2^53 that differ in their low bits"
+			}
+		}
+		register(&Suite{Name: "e2e_" + p, Parallel: 6, Gen: gen, Exec: execE2E, Rule: rule})
 	}
 }
+
+// the grammar of the engine's utils.FastParseFloat
+var e2eNumStrRe = regexp.MustCompile(`^[+-]?([0-9]+(\.[0-9]*)?|\.[0-9]+)([eE][+-]?[0-9]+)?$`)
 
 type kv struct{ k, tv string }
 type e2eEvent struct {
@@ -373,6 +392,424 @@ func genE2E(r *rand.Rand, n int, tier, profile string) []string {
 	return out
 }
 
+
+// ---------------------------------------------------------------- generator, second generation (profiles c01, c03, c04)
+
+// numeric-looking strings of many shapes (all exactly representable, all accepted by utils.FastParseFloat)
+var e2eNumLooking = []string{"007", "+5", "1e3", "12", "0.50", "1E2", ".5", "5.", "00", "2.5e1", "-7.25", "-0.5", "+0", "3.5", "100", "12", "1e0", "-3", "010", "08", "-012"}
+
+type e2eGen struct {
+	r       *rand.Rand
+	profile string
+	tmode   int // 0 uniform, 1 cluster + outlier blocks, 2 grid
+	span    uint64
+	step    uint64 // grid
+	clLo    uint64 // cluster
+	clW     uint64
+	outlier bool  // current block carries outliers
+	tMode   int   // c01: what column t holds in the current block
+	useBig  bool  // c04: column big (integers beyond 2^53 differing in low bits)
+	bigBase []int64
+	clTs    []uint64 // timestamps drawn inside the cluster
+	allTs   []uint64
+}
+
+func (g *e2eGen) newBlock() {
+	r := g.r
+	g.outlier = r.Intn(3) == 0
+	g.tMode = []int{0, 0, 0, 1, 1, 2, 2, 3, 4, 5}[r.Intn(10)]
+}
+
+func (g *e2eGen) ts() uint64 {
+	r := g.r
+	var ts uint64
+	switch g.tmode {
+	case 1:
+		if g.outlier && r.Intn(2) == 0 {
+			if r.Intn(3) == 0 && g.clLo > e2eBase+10 {
+				ts = g.clLo - 1 - uint64(r.Int63n(int64(g.clLo-e2eBase)))
+			} else {
+				ts = g.clLo + g.clW + 1 + uint64(r.Intn(15000))
+			}
+		} else {
+			ts = g.clLo + uint64(r.Int63n(int64(g.clW+1)))
+			g.clTs = append(g.clTs, ts)
+		}
+	case 2:
+		ts = e2eBase + uint64(r.Intn(16))*g.step
+	default:
+		if r.Intn(4) == 0 { // ties
+			ts = e2eBase + uint64(r.Intn(4))*1000
+		} else {
+			ts = e2eBase + uint64(r.Int63n(int64(g.span)))
+		}
+	}
+	g.allTs = append(g.allTs, ts)
+	return ts
+}
+
+func (g *e2eGen) event(vid int, late bool) e2eEvent {
+	r := g.r
+	e := genEvent(r, vid, g.ts(), g.profile, late)
+	add := func(k, tv string) { e.fields = append(e.fields, kv{k, tv}) }
+	if g.profile == "c01" && g.tMode != 0 && r.Intn(4) != 0 {
+		// drop what genEvent put into t: the block decides
+		fs := e.fields[:0]
+		for _, f := range e.fields {
+			if f.k != "t" {
+				fs = append(fs, f)
+			}
+		}
+		e.fields = fs
+		num := func() string {
+			if r.Intn(3) == 0 {
+				return "d" + dyadic(r)
+			}
+			return fmt.Sprintf("i%d", r.Intn(50))
+		}
+		nstr := func() string { return "s" + hexs(e2eNumLooking[r.Intn(len(e2eNumLooking))]) }
+		switch g.tMode {
+		case 1:
+			add("t", num())
+		case 2:
+			add("t", nstr())
+		case 3:
+			if r.Intn(2) == 0 {
+				add("t", num())
+			} else {
+				add("t", nstr())
+			}
+		case 4:
+			if r.Intn(2) == 0 {
+				add("t", num())
+			} else {
+				add("t", "s"+hexs([]string{"text", "n/a", "12a", "1e", "0x10"}[r.Intn(5)]))
+			}
+		default:
+			add("t", "s"+hexs([]string{"text", "n/a", "12", "007"}[r.Intn(4)]))
+		}
+	}
+	if g.useBig && r.Intn(5) != 0 {
+		add("big", fmt.Sprintf("i%d", g.bigBase[r.Intn(len(g.bigBase))]+int64(r.Intn(6))))
+	}
+	return e
+}
+
+// a query window: whole / cutting through the data / snapped onto event timestamps (±1)
+func (g *e2eGen) window(maxTs uint64) (uint64, uint64) {
+	r := g.r
+	start, end := e2eBase-1000, maxTs+1000
+	switch k := r.Intn(10); {
+	case k < 4:
+	case k < 5:
+		start = e2eBase + uint64(r.Int63n(int64(g.span)))
+		end = start + uint64(r.Int63n(int64(g.span)))
+	default:
+		a, b := g.allTs[r.Intn(len(g.allTs))], g.allTs[r.Intn(len(g.allTs))]
+		if a > b {
+			a, b = b, a
+		}
+		switch r.Intn(8) {
+		case 0:
+			a++
+		case 1:
+			a--
+		case 2:
+			a = e2eBase - 1000
+		}
+		switch r.Intn(8) {
+		case 0:
+			b++
+		case 1:
+			if b > a {
+				b--
+			}
+		case 2:
+			b = maxTs + 1000
+		}
+		if a > b {
+			a, b = b, a
+		}
+		start, end = a, b
+	}
+	return start, end
+}
+
+// a filter that differs from f in ONE operator (or by a negation): persistent-query results are keyed by a hash of the
+// query, a sibling must not be answered from f's results
+func e2eSiblingFilter(r *rand.Rand, f string) string {
+	items := strings.Split(f, ",")
+	var idx []int
+	for i, it := range items {
+		if strings.HasPrefix(it, "c:") && len(strings.Split(it, ":")) == 4 {
+			idx = append(idx, i)
+		}
+	}
+	if len(idx) == 0 || r.Intn(4) == 0 {
+		return f + ",not"
+	}
+	i := idx[r.Intn(len(idx))]
+	p := strings.Split(items[i], ":")
+	ops := []string{"eq", "ne", "lt", "le", "gt", "ge"}
+	if p[3][0] == 's' || p[3][0] == 'w' {
+		ops = ops[:2]
+	}
+	for {
+		if op := ops[r.Intn(len(ops))]; op != p[2] {
+			p[2] = op
+			break
+		}
+	}
+	items[i] = strings.Join(p, ":")
+	return strings.Join(items, ",")
+}
+
+func genE2EV2(r *rand.Rand, n int, tier, profile string) []string {
+	var out []string
+	for c := 0; c < n; c++ {
+		g := &e2eGen{r: r, profile: profile}
+		nev := 1 + r.Intn(40)
+		if r.Intn(5) == 0 {
+			nev = 1 + r.Intn(6)
+		}
+		toks := []string{"e2e"}
+		if card := []int{0, 0, 3, 5, 1000}[r.Intn(5)]; card > 0 {
+			toks = append(toks, fmt.Sprintf("card=%d", card))
+		}
+		if profile == "c03" && r.Intn(5) == 0 {
+			toks = append(toks, "pqs=0")
+		}
+		toks = append(toks, "H")
+		g.tmode = map[string][]int{"c01": {0, 0, 1, 2}, "c03": {0, 1, 1, 2}, "c04": {0, 1, 2, 2}}[profile][r.Intn(4)]
+		g.span = uint64(1 + r.Intn(20000))
+		g.step = []uint64{1, 250, 500, 1000}[r.Intn(4)]
+		g.clLo = e2eBase + uint64(r.Intn(3000))
+		g.clW = uint64(1 + r.Intn(1500))
+		if profile == "c04" && r.Intn(3) == 0 {
+			g.useBig = true
+			bases := []int64{9007199254740990, -9007199254740996, 1152921504606846976, 4611686018427387904, -4611686018427387904, 9223372036854775800, 1700000000000000000}
+			g.bigBase = []int64{bases[r.Intn(len(bases))]}
+			if r.Intn(3) == 0 {
+				g.bigBase = append(g.bigBase, bases[r.Intn(len(bases))])
+			}
+		}
+		// layout knobs: the cluster mode wants several blocks in one (finally rotated) segment
+		sendDen, flNum, roDen, finalRo := 4, 1, 9, 1
+		if g.tmode == 1 || profile == "c01" && r.Intn(2) == 0 {
+			sendDen, flNum, roDen, finalRo = 5, 2, 14, 3
+		}
+		// filters that are run more than once (also inside the history)
+		var hot []string
+		if profile == "c03" {
+			for len(hot) < 2 {
+				f := genCmpDense(r, profile)
+				if r.Intn(3) == 0 {
+					f = genBool(r, 1, profile, true)
+				}
+				hot = append(hot, f)
+			}
+		}
+		lateFrom := nev + 1
+		if r.Intn(2) == 0 {
+			lateFrom = r.Intn(nev + 1)
+		}
+		g.newBlock()
+		maxTs := e2eBase
+		for v := 1; v <= nev; v++ {
+			e := g.event(v, v >= lateFrom)
+			if e.ts > maxTs {
+				maxTs = e.ts
+			}
+			toks = append(toks, e.token())
+			if r.Intn(sendDen) == 0 || v == nev {
+				toks = append(toks, "send")
+				if profile == "c03" && r.Intn(12) == 0 {
+					toks = append(toks, "rq/"+hot[r.Intn(len(hot))])
+				}
+				if r.Intn(3) < flNum {
+					toks = append(toks, "fl")
+					g.newBlock()
+				}
+				if r.Intn(roDen) == 0 {
+					toks = append(toks, "ro")
+					g.newBlock()
+				}
+			}
+		}
+		if r.Intn(4) < finalRo {
+			toks = append(toks, "ro")
+		} else {
+			toks = append(toks, "fl")
+		}
+		if profile == "c03" {
+			// the SAME events under a second, different layout (batching, flush/rotate placement, dictionary limit, persistent-query results)
+			toks = append(toks, "H2")
+			if c2 := []int{0, 2, 4, 1000}[r.Intn(4)]; c2 > 0 {
+				toks = append(toks, fmt.Sprintf("card=%d", c2))
+			}
+			if r.Intn(3) == 0 {
+				toks = append(toks, "pqs=0")
+			}
+			var evs []string
+			for _, t := range toks {
+				if strings.HasPrefix(t, "ev/") {
+					evs = append(evs, t)
+				}
+			}
+			if r.Intn(3) == 0 {
+				r.Shuffle(len(evs), func(i, j int) { evs[i], evs[j] = evs[j], evs[i] })
+			}
+			for i, t := range evs {
+				toks = append(toks, t)
+				if r.Intn(3) == 0 || i == len(evs)-1 {
+					toks = append(toks, "send")
+					if r.Intn(2) == 0 {
+						toks = append(toks, "fl")
+					}
+					if r.Intn(6) == 0 {
+						toks = append(toks, "ro")
+					}
+				}
+			}
+			if r.Intn(3) == 0 {
+				toks = append(toks, "ro")
+			} else {
+				toks = append(toks, "fl")
+			}
+		}
+		toks = append(toks, "Q")
+		whole := func() (uint64, uint64) { return e2eBase - 1000, maxTs + 1000 }
+		switch profile {
+		case "c01":
+			nq := 1 + r.Intn(2)
+			for q := 0; q < nq; q++ {
+				s, e := whole()
+				if q > 0 || r.Intn(5) == 0 {
+					s, e = g.window(maxTs)
+				}
+				toks = append(toks, fmt.Sprintf("q/0/1000/%d/%d/all/recs", s, e))
+			}
+		case "c03":
+			qtok := func(fl string, s, e uint64) string { return fmt.Sprintf("q/0/1000/%d/%d/%s", s, e, fl) }
+			var used []string
+			if g.tmode == 1 && len(g.clTs) > 0 {
+				// the same filter over a narrow window around the cluster, then (after the background persistent-query
+				// write) over wider ones
+				lo, hi := g.clTs[0], g.clTs[0]
+				for _, t := range g.clTs {
+					if t < lo {
+						lo = t
+					}
+					if t > hi {
+						hi = t
+					}
+				}
+				lo -= []uint64{0, 0, 1, 100}[r.Intn(4)]
+				hi += []uint64{0, 0, 1, 100}[r.Intn(4)]
+				f := hot[0]
+				ws, we := whole()
+				toks = append(toks, qtok(f, lo, hi), "w", qtok(f, ws, we))
+				if r.Intn(2) == 0 {
+					toks = append(toks, "w", qtok(f, ws, we))
+				}
+				used = append(used, f)
+			}
+			nq := 2 + r.Intn(6)
+			for q := 0; q < nq; q++ {
+				var fl string
+				switch k := r.Intn(12); {
+				case k == 0:
+					fl = "all"
+				case k < 4 && len(used) > 0:
+					fl = used[r.Intn(len(used))]
+					if r.Intn(3) == 0 {
+						fl = e2eSiblingFilter(r, fl)
+					}
+				case k < 6:
+					fl = hot[r.Intn(len(hot))]
+				default:
+					fl = genFilter(r, 2, profile)
+				}
+				s, e := whole()
+				if r.Intn(3) == 0 {
+					s, e = g.window(maxTs)
+				}
+				toks = append(toks, qtok(fl, s, e))
+				if fl != "all" {
+					used = append(used, fl)
+				}
+				if r.Intn(2) == 0 {
+					toks = append(toks, "w")
+				}
+			}
+		case "c04":
+			nq := 3 + r.Intn(6)
+			for q := 0; q < nq; q++ {
+				s, e := g.window(maxTs)
+				f := "all"
+				if r.Intn(3) == 0 {
+					f = fmt.Sprintf("c:i:%s:i%d", []string{"lt", "ge", "gt", "le"}[r.Intn(4)], r.Intn(20))
+				}
+				pick := func(all []string, na int) []string {
+					var aggs []string
+					seen := map[string]bool{}
+					for len(aggs) < na {
+						a := all[r.Intn(len(all))]
+						if !seen[a] {
+							seen[a] = true
+							aggs = append(aggs, a)
+						}
+					}
+					return aggs
+				}
+				if r.Intn(9) < 4 {
+					// first-stage timechart; cell edges fall on event timestamps when the window starts on one and
+					// the span is a multiple of the grid step
+					span := []uint64{7, 50, 250, 1000, 3000, 60000}[r.Intn(6)]
+					if g.tmode == 2 && r.Intn(4) != 0 {
+						span = g.step * []uint64{1, 2, 3, 5}[r.Intn(4)]
+					}
+					if r.Intn(4) == 0 && e > s && e-s > span {
+						e = s + (e-s)/span*span // the end bound on the grid
+					}
+					all := []string{"count", "count", "sum.i", "avg.f", "min.i", "max.f", "max.i", "sum.f", "dc.i", "dc.s", "avg.i"}
+					if g.useBig {
+						all = append(all, "dc.big", "dc.big")
+					}
+					by := "-"
+					if r.Intn(5) < 2 {
+						by = []string{"g", "s", "x", "b"}[r.Intn(4)]
+					}
+					toks = append(toks, fmt.Sprintf("q/0/1000/%d/%d/%s/tc:%d:%s:%s", s, e, f, span, strings.Join(pick(all, 1+r.Intn(2)), "+"), by))
+					continue
+				}
+				all := []string{"count", "sum.i", "min.i", "max.i", "avg.i", "sum.f", "min.f", "max.f", "avg.f", "sum.i", "max.f", "min.i", "count", "avg.f", "count", "sum.m", "max.m", "min.x", "avg.x", "dc.i", "dc.s", "dc.x", "dc.f"}
+				if g.useBig {
+					all = append(all, "dc.big", "dc.big", "dc.big", "min.big", "max.big")
+				}
+				by := "-"
+				switch r.Intn(8) {
+				case 0, 1:
+				case 2, 3, 4:
+					by = "s"
+				case 5:
+					by = "g"
+				case 6:
+					by = "x"
+				default:
+					by = "g+b"
+				}
+				if g.useBig && r.Intn(5) == 0 {
+					by = "big"
+				}
+				toks = append(toks, fmt.Sprintf("q/0/1000/%d/%d/%s/stats:%s:%s", s, e, f, strings.Join(pick(all, 1+r.Intn(3)), "+"), by))
+			}
+		}
+		out = append(out, strings.Join(toks, " "))
+	}
+	return out
+}
+
 // ---------------------------------------------------------------- exec
 
 func tvToJSON(tv string) (string, bool) {
@@ -527,6 +964,7 @@ type e2eQuery struct {
 	aggs       []string
 	bys        []string
 	pageSize   int
+	span       uint64 // tc: cell width in ms
 }
 
 func parseE2EQuery(tok string) (q e2eQuery, ok bool) {
@@ -563,21 +1001,32 @@ func parseE2EQuery(tok string) (q e2eQuery, ok bool) {
 			if q.pageSize, err = strconv.Atoi(sp[1]); err != nil || q.pageSize < 1 {
 				return
 			}
-		case sp[0] == "stats" && len(sp) == 3:
+		case (sp[0] == "stats" && len(sp) == 3) || (sp[0] == "tc" && len(sp) == 4):
 			q.kind = "stats"
+			if sp[0] == "tc" {
+				q.kind = "tc"
+				if q.span, err = strconv.ParseUint(sp[1], 10, 64); err != nil || q.span == 0 || sp[3] == "" || strings.Contains(sp[3], "+") {
+					return q, false
+				}
+				sp = sp[1:]
+			}
 			var as []string
 			for _, a := range strings.Split(sp[1], "+") {
 				ap := strings.SplitN(a, ".", 2)
-				if ap[0] == "count" {
+				if ap[0] == "count" && len(ap) == 1 {
 					as = append(as, "count")
-				} else if len(ap) == 2 {
+				} else if len(ap) == 2 && (ap[0] == "sum" || ap[0] == "min" || ap[0] == "max" || ap[0] == "avg" || ap[0] == "dc") {
 					as = append(as, ap[0]+"("+ap[1]+")")
 				} else {
 					return
 				}
 			}
 			q.aggs = as
-			q.spl += " | stats " + strings.Join(as, ", ")
+			if q.kind == "tc" {
+				q.spl += fmt.Sprintf(" | timechart span=%dms %s", q.span, strings.Join(as, ", "))
+			} else {
+				q.spl += " | stats " + strings.Join(as, ", ")
+			}
 			if sp[2] != "-" {
 				q.bys = strings.Split(sp[2], "+")
 				q.spl += " by " + strings.Join(q.bys, ", ")
@@ -719,10 +1168,16 @@ func execE2ELayout(f []string) Result {
 		return Result{Out: "bad-op"}
 	}
 	var in bytes.Buffer
+	tagSet := map[string]bool{}
 	i := 1
 	for ; i < len(f) && f[i] != "H"; i++ {
 		if strings.HasPrefix(f[i], "card=") {
 			fmt.Fprintf(&in, "cfg card %s\n", f[i][5:])
+		} else if f[i] == "pqs=0" || f[i] == "pqs=1" {
+			fmt.Fprintf(&in, "cfg pqs %s\n", f[i][4:])
+			if f[i] == "pqs=0" {
+				tagSet["pqs=off"] = true
+			}
 		} else {
 			return Result{Out: "bad-op"}
 		}
@@ -732,6 +1187,7 @@ func execE2ELayout(f []string) Result {
 	}
 	i++
 	var batch []string
+	var evTs []uint64
 	nev := 0
 	for ; i < len(f) && f[i] != "Q"; i++ {
 		t := f[i]
@@ -745,6 +1201,14 @@ func execE2ELayout(f []string) Result {
 			in.WriteString("flush\n")
 		case t == "ro":
 			in.WriteString("rotate\n")
+		case strings.HasPrefix(t, "rq/"):
+			spl, ok := filterToSPL(t[3:])
+			if !ok {
+				return Result{Out: "bad-op"}
+			}
+			fmt.Fprintf(&in, "qd 0 1000 %d %d %s\n", e2eBase-100000, e2eBase+1000000, hexs(spl))
+			in.WriteString("pqwait\n")
+			tagSet["query-inside-history"] = true
 		case strings.HasPrefix(t, "ev/"):
 			p := strings.SplitN(t, "/", 4)
 			if len(p) != 4 {
@@ -771,6 +1235,7 @@ func execE2ELayout(f []string) Result {
 			}
 			batch = append(batch, hexs(js))
 			nev++
+			evTs = append(evTs, ts)
 		default:
 			return Result{Out: "bad-op"}
 		}
@@ -780,12 +1245,19 @@ func execE2ELayout(f []string) Result {
 	}
 	var qs []e2eQuery
 	nAnswers := 0
+	seenFilter := map[string]string{} // filter → window of its first run
 	for _, t := range f[i+1:] {
+		if t == "w" {
+			in.WriteString("pqwait\n")
+			tagSet["wait-for-pq-write"] = true
+			continue
+		}
 		q, ok := parseE2EQuery(t)
 		if !ok {
 			return Result{Out: "bad-op"}
 		}
 		qs = append(qs, q)
+		e2eQueryTags(t, q, evTs, seenFilter, tagSet)
 		if q.kind == "pages" {
 			// page through the whole result: from = 0, k, 2k, … (one page more than needed to see the end)
 			np := nev/q.pageSize + 2
@@ -940,6 +1412,8 @@ func execE2ELayout(f []string) Result {
 				key = "recs"
 			}
 			segs = append(segs, fmt.Sprintf("kind=%s %s=%s", q.kind, key, strings.Join(parts, sep)))
+		case "tc":
+			segs = append(segs, e2eCanonTimechart(q, resp))
 		case "stats":
 			meas, _ := resp["measure"].([]interface{})
 			var rows []string
@@ -963,11 +1437,7 @@ func execE2ELayout(f []string) Result {
 				mv, _ := m["MeasureVal"].(map[string]interface{})
 				var vals []string
 				for _, a := range q.aggs {
-					name := a
-					if a == "count" {
-						name = "count(*)"
-					}
-					v, ok := mv[name]
+					v, ok := mv[e2eAggName(a)]
 					if !ok {
 						vals = append(vals, "missing")
 					} else {
@@ -989,5 +1459,224 @@ func execE2ELayout(f []string) Result {
 			segs = append(segs, "kind=stats rows="+strings.Join(rows, ","))
 		}
 	}
-	return Result{Out: strings.Join(segs, " | "), Nontrivial: nev >= 3 && len(qs) >= 1, Tags: []string{fmt.Sprintf("events<=%d", (nev/10+1)*10), fmt.Sprintf("queries=%d", len(qs))}}
+	tags := []string{fmt.Sprintf("events<=%d", (nev/10+1)*10), fmt.Sprintf("queries=%d", len(qs))}
+	for _, t := range e2eHistoryTags(f) {
+		tagSet[t] = true
+	}
+	for t := range tagSet {
+		tags = append(tags, t)
+	}
+	sort.Strings(tags[2:])
+	return Result{Out: strings.Join(segs, " | "), Nontrivial: nev >= 3 && len(qs) >= 1, Tags: tags}
+}
+
+// display name of an aggregation in the engine's response
+func e2eAggName(a string) string {
+	if a == "count" {
+		return "count(*)"
+	}
+	if strings.HasPrefix(a, "dc(") {
+		return "cardinality(" + a[3:]
+	}
+	return a
+}
+
+// kind=tchart rows=<cell start>:<series>=<v;v>,…   series: - (no by-field) | ~ (the engine's NULL series "<nil>") | hex(key).
+// With a by-field the engine lists, in every cell it reports, every series of the whole answer (0 where the series has no
+// event in the cell): all of them are printed, the comparison knows which ones must be empty.
+func e2eCanonTimechart(q e2eQuery, resp map[string]interface{}) string {
+	meas, _ := resp["measure"].([]interface{})
+	var rows []string
+	for _, mr := range meas {
+		m, _ := mr.(map[string]interface{})
+		gv, _ := m["GroupByValues"].([]interface{})
+		cell := "?"
+		if len(gv) == 1 {
+			cell = fmt.Sprint(gv[0])
+		}
+		mv, _ := m["MeasureVal"].(map[string]interface{})
+		if len(q.bys) == 0 {
+			var vals []string
+			for _, a := range q.aggs {
+				if v, ok := mv[e2eAggName(a)]; ok {
+					vals = append(vals, ratOf(v))
+				} else {
+					vals = append(vals, "missing")
+				}
+			}
+			rows = append(rows, cell+":-="+strings.Join(vals, ";"))
+			continue
+		}
+		// series names: "<agg>: <key>"; a key-less "<agg>" next to them is a second, unnamed series (printed as _)
+		series := map[string]bool{}
+		for k := range mv {
+			for _, a := range q.aggs {
+				if pre := e2eAggName(a) + ": "; strings.HasPrefix(k, pre) {
+					series[": "+k[len(pre):]] = true
+				} else if k == e2eAggName(a) {
+					series[""] = true
+				}
+			}
+		}
+		for sk := range series {
+			var vals []string
+			for _, a := range q.aggs {
+				if v, ok := mv[e2eAggName(a)+sk]; ok {
+					vals = append(vals, ratOf(v))
+				} else {
+					vals = append(vals, "missing")
+				}
+			}
+			name := "_"
+			if sk == ": <nil>" {
+				name = "~"
+			} else if sk != "" {
+				name = hexs(sk[2:])
+			}
+			rows = append(rows, cell+":"+name+"="+strings.Join(vals, ";"))
+		}
+	}
+	sort.Strings(rows)
+	return "kind=tchart rows=" + strings.Join(rows, ",")
+}
+
+// input-distribution tags of one query
+func e2eQueryTags(tok string, q e2eQuery, evTs []uint64, seenFilter map[string]string, tags map[string]bool) {
+	p := strings.Split(tok, "/")
+	win := p[3] + "/" + p[4]
+	if p[5] != "all" {
+		if w0, ok := seenFilter[p[5]]; ok && w0 != win {
+			tags["same-filter-again-other-window"] = true
+		} else if !ok {
+			seenFilter[p[5]] = win
+		}
+	}
+	for _, ts := range evTs {
+		if ts == q.end {
+			tags["event-on-end-bound"] = true
+		}
+		if ts == q.start {
+			tags["event-on-start-bound"] = true
+		}
+		if q.kind == "tc" && ts > q.start && ts < q.end && (ts-q.start)%q.span == 0 {
+			tags["tc-event-on-cell-edge"] = true
+		}
+	}
+	if q.kind == "tc" {
+		tags["timechart"] = true
+		if len(q.bys) > 0 {
+			tags["timechart-by"] = true
+		}
+		if q.end > q.start && (q.end-q.start)%q.span == 0 {
+			tags["tc-end-bound-on-grid"] = true
+		}
+	}
+	for _, a := range q.aggs {
+		if strings.HasPrefix(a, "dc(") {
+			tags["distinct-count"] = true
+			if a == "dc(big)" {
+				tags["distinct-count-of-ints-beyond-2^53"] = true
+			}
+		}
+	}
+	for _, b := range q.bys {
+		if b == "big" {
+			tags["group-by-ints-beyond-2^53"] = true
+		}
+	}
+}
+
+// input-distribution tags of the history (first layout): block/segment shapes the generator aims at
+func e2eHistoryTags(f []string) []string {
+	type blk struct {
+		lo, hi  uint64
+		numCols map[string]bool // columns holding a JSON number
+		strOnly map[string]bool // columns holding only numeric-looking strings
+		strBad  map[string]bool
+	}
+	var out []string
+	var segBlocks []blk
+	var pending, batch []string
+	seenNum := map[string]bool{}
+	endSeg := func() {
+		if n := len(segBlocks); n >= 3 {
+			lo, hi := segBlocks[0].lo, segBlocks[n-1].hi
+			for _, b := range segBlocks[1 : n-1] {
+				if b.lo < lo || b.hi > hi {
+					out = append(out, "middle-block-outside-first-last-span")
+				}
+			}
+		}
+		if len(segBlocks) >= 3 {
+			out = append(out, "segment-of-3+-blocks")
+		}
+		segBlocks = nil
+	}
+	flush := func() {
+		if len(pending) == 0 {
+			return
+		}
+		b := blk{lo: ^uint64(0), numCols: map[string]bool{}, strOnly: map[string]bool{}, strBad: map[string]bool{}}
+		for _, t := range pending {
+			p := strings.SplitN(t, "/", 4)
+			ts, _ := strconv.ParseUint(p[2], 10, 64)
+			if ts < b.lo {
+				b.lo = ts
+			}
+			if ts > b.hi {
+				b.hi = ts
+			}
+			if p[3] == "-" {
+				continue
+			}
+			for _, x := range strings.Split(p[3], ",") {
+				y := strings.SplitN(x, "~", 2)
+				if len(y) != 2 || y[1] == "" {
+					continue
+				}
+				switch y[1][0] {
+				case 'i', 'd':
+					b.numCols[y[0]] = true
+				case 's':
+					raw, _ := hex.DecodeString(y[1][1:])
+					if e2eNumStrRe.Match(raw) {
+						b.strOnly[y[0]] = true
+					} else {
+						b.strBad[y[0]] = true
+					}
+				}
+			}
+		}
+		for c := range b.strOnly {
+			if !b.strBad[c] && !b.numCols[c] && seenNum[c] {
+				out = append(out, "numeric-strings-only-block-after-number-block")
+			}
+			if !b.strBad[c] && b.numCols[c] {
+				out = append(out, "numeric-strings-and-numbers-in-one-block")
+			}
+		}
+		for c := range b.numCols {
+			seenNum[c] = true
+		}
+		segBlocks = append(segBlocks, b)
+		pending = nil
+	}
+	for _, t := range f {
+		switch {
+		case t == "H2" || t == "Q":
+			endSeg()
+			return out
+		case t == "send":
+			pending = append(pending, batch...)
+			batch = nil
+		case t == "fl":
+			flush()
+		case t == "ro":
+			flush()
+			endSeg()
+		case strings.HasPrefix(t, "ev/"):
+			batch = append(batch, t)
+		}
+	}
+	return out
 }
